@@ -3,41 +3,16 @@
 (* reading (Strict = FALSE) of CircuitBreaker.tla.                         *)
 EXTENDS TraceKit, FiniteSets
 
-MaxThreshold == 0
-MaxLen == 0
-VARIABLES st, streak, n, last
-INSTANCE CircuitBreaker
+CB == INSTANCE CircuitBreaker WITH MaxThreshold <- 0, MaxLen <- 0, st <- 0, streak <- 0, n <- 0, last <- 0
 
-VARIABLES l, poss, cur, failed, skip
-tvars == <<l, poss, cur, failed, skip, st, streak, n, last>>
+CBInit(e) == {CB!St(0, CB!Cfg(e.threshold, e.mock))}
 
-InitStates(e) == {St(0, Cfg(e.threshold, e.mock))}
-
-\* event: {"ev":"call","o":..,"el":..,"fwd":..,"res":..}
-Step(s, e) ==
-    {r.st : r \in {r \in CallOutcomes(s, e.o, e.el, FALSE) :
+\* event: {"ev":"call","o":..,"el":..,"fwd":..,"res":..,"count":..}
+CBStep(s, e) ==
+    {r.st : r \in {r \in CB!CallOutcomes(s, e.o, e.el, FALSE) :
                         /\ r.fwd = e.fwd /\ r.res = e.res
                         /\ e.count = IF r.fwd THEN 1 ELSE 0}}   \* downstream invoked exactly once
 
-TraceInit == /\ l = 1 /\ poss = {} /\ cur = -1 /\ failed = <<>> /\ skip = FALSE
-             /\ st = 0 /\ streak = 0 /\ n = 0 /\ last = 0
-
-TraceNext ==
-    /\ l <= Len(Trace)
-    /\ l' = l + 1
-    /\ UNCHANGED <<st, streak, n, last>>
-    /\ LET e == Trace[l] IN
-       IF e.ev = "reset"
-       THEN /\ poss' = InitStates(e) /\ cur' = e.case /\ skip' = FALSE /\ UNCHANGED failed
-       ELSE IF skip THEN UNCHANGED <<poss, cur, failed, skip>>
-       ELSE LET nxt == UNION {Step(s, e) : s \in poss} IN
-            IF nxt = {}
-            THEN /\ failed' = Append(failed, [case |-> cur, line |-> l])
-                 /\ skip' = TRUE /\ poss' = {} /\ UNCHANGED cur
-            ELSE /\ poss' = nxt /\ UNCHANGED <<cur, failed, skip>>
-
-TraceSpec == TraceInit /\ [][TraceNext]_tvars
-
-Emit == (l = Len(Trace) + 1) =>
-            JsonSerialize(OutFile, [complete |-> TRUE, failed |-> failed, len |-> Len(Trace), l |-> l])
+VARIABLES l, poss, cur, failed, skip
+INSTANCE TraceLoop WITH InitStates <- CBInit, Step <- CBStep
 =============================================================================
